@@ -425,6 +425,28 @@ def gen_near_req(rng, e0):
     return dict(text=text, label=label, reading=rd)
 
 
+def oracle_bare(c, case):
+    """configuration directories without a usable find_launcher: no launchers.py = the documented default (local host,
+    nothing to match against); a launchers.py without find_launcher = hosts described that cannot be asked: no request may
+    get a launcher there; and a text that parse() rejects is rejected whatever the configuration"""
+    a = case["ans"]
+    for text, parsed, bare in ((case["text"], a["parsed"], a["bare"]),
+                               (case["near"]["text"] if case.get("near") else None, a.get("near_parsed"), a.get("bare_near"))):
+        if bare is None:
+            continue
+        data = dict(text=text, parsed=parsed, answers=bare, derived_from=case["expr"])
+        c.count("bare-registry:" + ("text-accepted" if parsed is not None else "text-rejected"))
+        if bare["nofn"]["launcher"] is not None:
+            c.violation("C18:registry-ignores-launchers-py",
+                        "launchers.py describes the hosts but has no find_launcher(): the request gets the local host "
+                        "although no host was asked whether it offers what is requested", data)
+        if parsed is None:
+            for kind in ("none", "nofn"):
+                if bare[kind]["launcher"] is not None:
+                    c.violation("C18:registry-text-not-parsed",
+                                "a text that parse() rejects gets a launcher: the textual requirement is not even read", data)
+
+
 def oracle_near(c, case):
     nr, a = case.get("near"), case["ans"]
     if nr is None:
@@ -554,6 +576,8 @@ def oracle(c, case):
     oracle_registry(c, case)
     # (6) a text near the grammar is rejected or means what is written
     oracle_near(c, case)
+    # (7) registries without a find_launcher function
+    oracle_bare(c, case)
     # (4) text means the same as the programmatic construction
     if a["parsed"] is None or [dict(r, gpu_extra=None) for r in a["parsed"]] != [dict(r, gpu_extra=None) for r in a["prog"]]:
         c.violation("C18:parse-differs", "parse(text) differs from the equivalent programmatic request",
@@ -646,7 +670,9 @@ def run(c: Check):
             e = rp["derived_from"]
             cases.append(dict(expr=e, host=gen_host(c.rng, e), text=print_expr(c.rng, e), hosts=[gen_host(c.rng, e)],
                               groups=[dict(kind="str", n=len(e))],
-                              near=dict(text=rp["text"], label=rp["label"], reading=rp["reading"])))
+                              near=dict(text=rp["text"], label=rp.get("label", "replay"),
+                                        reading=rp["reading"] if "reading" in rp else
+                                        (None if rp.get("parsed") is None else [strip(r) for r in rp["parsed"]]))))
         n = 0
     # golden corpus first (minimised earlier failures)
     gold = json.load(open(c_root() / "golden" / "c18.json"))
